@@ -6,7 +6,7 @@ from . import gen, hist, oracles, sexpr
 from .hbase import HistCheck, STATE_CMDS, answer_of, clean_lines, has_error
 from .oracles import Unparsable
 from .refs import RefError, prelude_from_decls, prelude_from_trace_decls
-from .runner import bump, death_of, empty_result, log_hash, stable_hash, sub_rng
+from .runner import bump, death_of, empty_result, log_hash, stable_hash, sub_rng, sim_ticks
 
 
 def engine_name(options):
@@ -608,6 +608,7 @@ class C19(HistCheck):
         res['hash'] = stable_hash([log_hash(resp0), log_hash(resp1)])
         res['key'] = stable_hash([[c['text'] for c in fc['hist']['commands']], case['options'], case.get('knobs')])
         bump(res, 'runs', 2)
+        bump(res, 'sim-ticks', sim_ticks(resp0) + sim_ticks(resp1))
         d0, d1 = death_of(resp0), death_of(resp1)
         if d0 or exc0:
             res['discarded'] = 'base-history-died'
@@ -790,6 +791,7 @@ class C21(HistCheck):
         outs, prefix_out, exc, ticks = self.outputs(case, resp)
         death = death_of(resp)
         bump(res, 'runs')
+        bump(res, 'sim-ticks', sim_ticks(resp))
         if death and death[0] == 'harness':
             raise RuntimeError('harness error: %r' % (death[1],))
         if death or exc:
